@@ -225,6 +225,15 @@ theorem inv_step {s s' : St} {a : Act} (h : Inv s) (hs : step s a = some s') : I
           exact h.nilBoot
       · cases hs
         exact ⟨h.g, h.nilBoot, by simp [hctx], by simp, by simp [e1], by simp⟩
+  | runBootFail =>
+    simp only [step] at hs
+    split at hs
+    · cases hs
+    · rename_i hc
+      simp only [bne_iff_ne, ne_eq, Decidable.not_not] at hc
+      have hctx : s.rctx = true := h.ctxSet (by rw [hc]; simp)
+      cases hs
+      exact ⟨h.g, h.nilBoot, by simp [hctx], by simp, h.rlLive, by simp⟩
   | runToRunning =>
     simp only [step] at hs
     split at hs
